@@ -68,11 +68,14 @@ func makeFn(name string) func(string) bool {
 var defaultMethods = []string{"GET", "POST", "HEAD", "PUT", "DELETE", "PATCH"}
 
 var originMenuQuick = []string{"*", "https://a.test", "https://a.test:8443", "http://a.test", "https://*.a.test",
-	" https://b.test ", "https://A.TEST/", " https://*.b.test "}
+	" https://b.test ", "https://A.TEST/", " https://*.b.test ",
+	// an explicit port that is the OTHER scheme's default: a scheme-blind "strip the default port" normalisation
+	// turns the entry into https://a.test (round 10)
+	"https://a.test:80"}
 
 var originMenuThorough = append(append([]string(nil), originMenuQuick...),
 	"https://*.a.test:8443", "http://*.b.test", "https://*.A.TEST/", "https://*.b.test ",
-	"null", "https://c.test/path", "https://*")
+	"null", "https://c.test/path", "https://*", "http://a.test:443", "https://*.a.test:80")
 
 var originsQuick = []originV{
 	{false, "", "absent"},
@@ -84,6 +87,7 @@ var originsQuick = []originV{
 	{true, "HTTPS://A.TEST", "upper-case"},
 	{true, "https://a.test:443", "explicit-default-port"},
 	{true, "https://a.test:8444", "other-port"},
+	{true, "https://a.test:80", "other-schemes-default-port"},
 	{true, "https://a.test/", "trailing-slash"},
 	{true, "https://x.a.test", "subdomain"},
 	{true, "https://x.y.a.test", "nested-subdomain"},
@@ -114,6 +118,8 @@ var originsThorough = append(append([]originV(nil), originsQuick...),
 	originV{true, "https://a.test.", "trailing-dot"},
 	originV{true, "ftp://x.a.test", "subdomain-other-scheme"},
 	originV{true, "https://c.test", "plain-host"},
+	originV{true, "http://a.test:443", "other-schemes-default-port"},
+	originV{true, "https://x.a.test:80", "subdomain-other-schemes-default-port"},
 	originV{true, "*", "star-literal"},
 	originV{true, "https://*.a.test", "wildcard-literal"},
 )
